@@ -94,6 +94,19 @@ impl Property for C11 {
             q
         } else {
             let mut q = sqlgen::gen_aggregate(rng, &cfg, &AggCfg { order_insensitive: false, allow_join: with_join, max_aggs: 4 });
+            if with_join {
+                // an aggregate over a join: one line may add several values to one aggregator (fan-out)
+                for _ in 0..8 {
+                    if q.join.is_some() {
+                        break;
+                    }
+                    q = sqlgen::gen_aggregate(rng, &cfg, &AggCfg { order_insensitive: false, allow_join: true, max_aggs: 4 });
+                }
+                if q.join.is_some() && rng.chance(1, 2) {
+                    let i = q.projections.len();
+                    q.projections.push(format!("{} AS a{}", rng.pick(&["PERCENTILE(t.n, 0.5)", "PERCENTILE(t.r, 0.9)", "ARRAY_AGG(t.n)", "PERCENTILE(u.m, 0.5)"]), i));
+                }
+            }
             if rng.chance(1, 4) {
                 // the shape the DISTINCT memory matters for
                 q.distinct = true;
@@ -106,6 +119,29 @@ impl Property for C11 {
         // names that resolve in more than one way: a column name the table defines twice, a column called like the
         // `input` pseudo column; batch and incremental path must agree on what such a name means
         let mut query = query;
+        if query.join.is_none() && rng.chance(1, 12) {
+            // only aggregates that saturate (BOOL_OR once true, BOOL_AND once false) in the select list, the others in
+            // HAVING only: the table must still follow what HAVING says about the later lines
+            let mut q = sqlgen::Query::default();
+            q.aggregate = true;
+            let c = rng.range(0, 2);
+            q.projections = match rng.below(3) {
+                0 => vec![format!("BOOL_OR(n > {}) AS any_big", c)],
+                1 => vec![format!("BOOL_AND(n >= {}) AS all_big", c)],
+                _ => vec![format!("BOOL_OR(n > {}) AS any_big", c), format!("BOOL_AND(n >= {}) AS all_big", c)],
+            };
+            if rng.chance(1, 4) {
+                q.group_by = vec!["k".to_owned()];
+                q.projections.push("k".to_owned());
+            }
+            q.having = Some(match rng.below(4) {
+                0 => format!("COUNT(*) >= {}", rng.range(2, 5)),
+                1 => format!("SUM(n) > {}", c),
+                2 => format!("COUNT(*) < {}", rng.range(2, 5)),
+                _ => format!("COUNT(n) >= {}", rng.range(1, 3)),
+            });
+            query = q;
+        }
         let mut defs_t = sqlgen::table_defs(&cfg);
         if cfg.variant == sqlgen::Variant::Capture && query.join.is_none() && rng.chance(1, 8) {
             let cut = defs_t.rfind(");").unwrap_or(defs_t.len());
@@ -282,6 +318,7 @@ impl Property for C11 {
             out.nontrivial.push(fnv_mix(fnv(stmt.as_bytes()), fnv(serde_json::to_string(&case["lines"]).unwrap().as_bytes())));
         }
         out.probe("aggregate", aggregate as u64);
+        out.probe("saturating_aggregates_only_in_select_list", (stmt.starts_with("SELECT BOOL_") && upper.contains(" HAVING ")) as u64);
         out.probe("real_values_of_very_different_magnitudes", lines.iter().any(|l| l.windows(17).any(|w| w == b"10000000000000000")) as u64);
         out.probe("column_called_input", defs.contains("=> input TEXT") as u64);
         out.probe("column_name_defined_twice", ["k", "n", "r"].iter().any(|c| defs.split("CREATE TABLE u").next().unwrap_or("").matches(&format!("=> {} ", c)).count() > 1) as u64);
@@ -295,6 +332,7 @@ impl Property for C11 {
 
         // --- L2: the real FollowFileExecutor under the writer/poll schedule
         out.probe("join_statement", joined.is_some() as u64);
+        out.probe("aggregate_over_join", (joined.is_some() && aggregate) as u64);
         if jbool(case, "follow") && l1_failed_at.is_none() && joined.is_none() {
             let content = gen::join_lines(&lines, true);
             let mut f = WorldSpec::new(&defs, &stmt, Mode::FollowExec { head: true });
